@@ -1,4 +1,4 @@
-CONSTANTS Families = {"one", "rsv"}  Bug = "NXDropped"  Emit = FALSE
+CONSTANTS Families = {"mini"}  Bug = "NXDropped"  Emit = FALSE
   TwoFlags = {}
   TwoSizes = {}
   ThreeSizes = {}
